@@ -13,26 +13,33 @@ EXTENDS BreakCyclesOps, Json, IOUtils
 
 Cases == JsonDeserialize(IOEnv.CASES_FILE)
 
-RECURSIVE Run(_, _, _, _, _, _)
-Run(g, qs, i, s, t, res) ==
+RECURSIVE Run(_, _, _, _, _, _, _)
+Run(g, qs, i, s, t, res, evv) ==
   IF i > Len(qs) THEN [ st |-> s, results |-> res ]
   ELSE LET q  == qs[i]
            t0 == IF q.phase = 2 /\ (i = 1 \/ qs[i - 1].phase = 1) THEN EmptyTr ELSE t
-           r  == BC(g, s, t0, IF q.phase = 2 THEN AbsKey(q.key) ELSE q.key, {})
+           r  == BC(g, s, t0, IF q.phase = 2 THEN AbsKey(q.key) ELSE q.key, {}, evv, q.phase = 2)
            k  == IF q.phase = 2 /\ q.key < 0 THEN NegKey(r.ret) ELSE r.ret
-       IN  Run(g, qs, i + 1, r.st, r.tr, Append(res, k))
+       IN  Run(g, qs, i + 1, r.st, r.tr, Append(res, k), evv)
 
 Strip(nodes) == [ i \in DOMAIN nodes |-> [ t |-> nodes[i].t, ch |-> nodes[i].ch, id |-> nodes[i].id ] ]
 
 JudgeCase(C) ==
   LET ids == AtomIds(C.src) \cup AtomIds(C.nodes)
+      \* C.evv[n] = -1: no propagated value; 0 / FKey: lookup_evidence[n]
+      evv == [ n \in { k \in DOMAIN C.evv : C.evv[k] # -1 } |-> C.evv[n] ]
+      evl == { C.queries[i].key : i \in { k \in DOMAIN C.queries : C.queries[k].phase = 2 } }
+      cons(ws) == \A l \in evl : KeyValue("s", ws, l) = "T"
+      \* precondition: the propagated values are entailed by the evidence (C06 / Propagate.tla); otherwise the case is not judged
+      evvSound == \A asg \in SUBSET ids : LET ws == WFM(GraphRules("s", C.src, asg))
+                                           IN  cons(ws) => \A n \in DOMAIN evv : KeyValue("s", ws, n) = (IF evv[n] = 0 THEN "T" ELSE "F")
       meaning == \A asg \in SUBSET ids :
                     LET ws == WFM(GraphRules("s", C.src, asg))
                         wt == WFM(GraphRules("t", C.nodes, asg))
-                    IN  \A i \in DOMAIN C.results :
+                    IN  cons(ws) => \A i \in DOMAIN C.results :
                            KeyValue("s", ws, C.queries[i].key) = KeyValue("t", wt, C.results[i])
-      m == Run(C.src, C.queries, 1, EmptySt, EmptyTr, << >>)
-  IN  [ id |-> C.id, acyclic |-> Acyclic(C.nodes), meaning |-> meaning,
+      m == Run(C.src, C.queries, 1, EmptySt, EmptyTr, << >>, evv)
+  IN  [ id |-> C.id, acyclic |-> Acyclic(C.nodes), meaning |-> (~evvSound \/ meaning), evvSound |-> evvSound,
         same |-> (m.results = C.results /\ Strip(m.st.nodes) = Strip(C.nodes)) ]
 
 Results == [ c \in DOMAIN Cases |-> JudgeCase(Cases[c]) ]
